@@ -11,6 +11,7 @@ RULE = ('every stage (constructed, materials, baked, sourced, exchanged) of rand
         'plus random call histories on a real object (setters on all / some / no walls, mixed direction-set sizes, frequency mismatches, '
         'source before bake, setters after bake, exchange with and without recalculation, restores anywhere; refused steps included): '
         'after every step the shapes of everything to_dict() saves and whether from_dict accepts it, against the shape-level model Sparrow.Shape')
+RULE = RULE + '; and EVERY call history of at most 2 (quick) / 4 (thorough) steps over a fixed alphabet of ten calls (materials on all / two walls / multi-direction, attenuation with matching / other frequencies, bake, source, exchange with and without recalculation, save-restore) on a one-patch-per-wall room'
 ASSUMPTIONS = ['translator: AST patterns of __init__/check() mean in Python what the emitted Lean says (index accesses assumed in range)',
                'the abstraction of a dict to shapes/ids/scalars is done by the harness (np.shape of np.array(value))']
 EXPLANATION = ('check_sound: accepted => every documented constraint holds (all ranks/lengths/ids/scalars); rejection is always ValueError; valid states with every wall owning a patch are accepted; '
@@ -69,6 +70,8 @@ def run(ctx):
         sweep(ctx, sc)
     # shape-level life cycle: random call histories (also irregular ones) against `Sparrow.Shape`
     shapehist.corr(ctx, 10 if ctx.tier == 'quick' else 120)
+    # every history up to 2 (quick) / 4 (thorough) steps over a fixed alphabet of calls
+    shapehist.exhaustive(ctx, 2 if ctx.tier == 'quick' else 4, budget_s=60 if ctx.tier == 'quick' else 2400)
 
 
 def oracle(ctx, budget_s=60):
